@@ -56,13 +56,19 @@ func copyStrMap(m map[string]int64) map[string]int64 {
 }
 
 // stmtObserver holds the recording functions injected next to the world.
-type stmtObserver struct{ log *obs.Log }
+type stmtObserver struct {
+	log *obs.Log
+	cnt int64 // state of nx()
+}
 
 func (o *stmtObserver) apis() map[string]interface{} {
 	return map[string]interface{}{
 		"tr":  func(n int64) { o.log.Add("T", "", n) },
 		"lt":  func(a, b int64) bool { o.log.Add("LT", fmt.Sprintf("%d<%d", a, b), 0); return a < b },
 		"one": func(n int64) int64 { o.log.Add("ONE", "", n); return 1 },
+		// nx is stateful: it returns 1, 2, 3, ... (a condition built on it is true at most for
+		// some evaluations, so evaluating a condition twice is observable)
+		"nx": func() int64 { o.cnt++; o.log.Add("NX", "", o.cnt); return o.cnt },
 		"rki": func(loop, k int64) { o.log.Add("K", fmt.Sprintf("%d:%d", loop, k), 0) },
 		"rks": func(loop int64, k string) { o.log.Add("K", fmt.Sprintf("%d:%s", loop, k), 0) },
 	}
@@ -154,6 +160,7 @@ type stmtGen struct {
 	// undefined on some paths (reference: error)
 	collLocals map[string]string
 	collStored bool
+	statefulCond bool
 }
 
 var c02Locals = map[byte][]string{'i': {"a", "b", "c", "d"}, 's': {"s", "u"}, 'b': {"p", "q"}, 'f': {"x"}}
@@ -410,6 +417,16 @@ func (g *stmtGen) cond() *dsl.Expr {
 		return dsl.Bool(true)
 	case 1:
 		return dsl.Bool(rapid.Bool().Draw(g.t, g.lbl("cval")))
+	case 2:
+		if pct(g.t, g.lbl("cstate"), 50) {
+			// a condition on the stateful counter: every evaluation is observed and changes the next one
+			g.statefulCond = true
+			k := dsl.Int(int64(uni(g.t, g.lbl("cnxk"), 1, 4)))
+			if pct(g.t, g.lbl("cnxlt"), 30) {
+				return dsl.Call("lt", dsl.Call("nx"), k)
+			}
+			return dsl.Bin([]string{"==", "<", ">=", "!="}[uni(g.t, g.lbl("cnxop"), 0, 3)], dsl.Call("nx"), k)
+		}
 	}
 	return g.expr('b', uni(g.t, g.lbl("cdepth"), 1, 2))
 }
